@@ -25,6 +25,7 @@ import (
 	"net/http"
 	"os"
 	"os/exec"
+	"path/filepath"
 	"runtime"
 	"runtime/debug"
 	"sort"
@@ -1046,5 +1047,75 @@ func TestC16(t *testing.T) {
 		}
 	}
 
+	c16Commands(t, R)
 	R.Finish(t)
+}
+
+// c16Commands: the commands that read result files (encode, report, plot) on
+// files that are damaged or in none of the formats: every truncation of every
+// result seed, every bit flip in their first 24 bytes, and junk. Each command
+// returns - with an error or not - and never panics.
+func c16Commands(t *testing.T, R *ev.Run) {
+	rs := c16Results()
+	seeds := [][]byte{
+		c16Encode(vegeta.NewEncoder, rs[0], rs[1]), c16Encode(vegeta.NewCSVEncoder, rs[1], rs[0]), c16Encode(vegeta.NewJSONEncoder, rs[1], rs[0]),
+	}
+	var inputs [][]byte
+	for _, sd := range seeds {
+		for cut := 0; cut <= len(sd); cut++ {
+			inputs = append(inputs, sd[:cut])
+		}
+		for pos := 0; pos < 24 && pos < len(sd); pos++ {
+			for bit := 0; bit < 8; bit++ {
+				m := append([]byte(nil), sd...)
+				m[pos] ^= 1 << bit
+				inputs = append(inputs, m)
+			}
+		}
+	}
+	for _, j := range []string{"", "\n", "hello world\n", "{}", "{}\n", "{\"code\":200}\n", "1,2,3\n", "\x00\x01\x02\x03", "GET http://x/\n", strings.Repeat("z", 70000)} {
+		inputs = append(inputs, []byte(j))
+	}
+	dir := t.TempDir()
+	type viol struct {
+		key    string
+		detail any
+	}
+	out := make([][]viol, len(inputs))
+	ev.Parallel(len(inputs), 16, func(i int) {
+		in := filepath.Join(dir, fmt.Sprintf("c16cmd-%d.in", i))
+		if err := os.WriteFile(in, inputs[i], 0o644); err != nil {
+			panic(err)
+		}
+		defer os.Remove(in)
+		o := filepath.Join(dir, fmt.Sprintf("c16cmd-%d.out", i))
+		defer os.Remove(o)
+		cmds := map[string]func() error{
+			"encode": func() error { return encode([]string{in}, "json", o) },
+			"report": func() error { return report([]string{in}, "json", o, 0, "") },
+			"plot":   func() error { return plotRun([]string{in}, 0, "t", o) },
+		}
+		for _, name := range []string{"encode", "report", "plot"} {
+			R.Eval(1)
+			R.Trans(1)
+			func() {
+				defer func() {
+					if x := recover(); x != nil {
+						out[i] = append(out[i], viol{"cmd-" + name + ":panic", map[string]any{"input": ev.Trunc(fmt.Sprintf("%q", inputs[i]), 120), "input_len": len(inputs[i]), "panic": fmt.Sprint(x)}})
+					}
+				}()
+				cmds[name]()
+			}()
+		}
+	})
+	seen := map[string]bool{}
+	for i := range out {
+		for _, v := range out[i] {
+			if !seen[v.key] {
+				seen[v.key] = true
+				R.Violation(v.key, v.detail)
+			}
+		}
+	}
+	R.Part("commands", "damaged or foreign result files", len(inputs))
 }
